@@ -179,6 +179,11 @@ pub const CORPUS: &[&str] = &[
     "SELECT id, age FROM users WHERE city IN ('NY', 'LA') AND age NOT IN (20) AND NOT (score IS NULL) ORDER BY id",
     "SELECT a.id, b.amount FROM users AS a JOIN orders AS b ON a.id = b.user_id ORDER BY a.id, b.amount",
     "SELECT a.id AS uid, b.amount AS amt FROM users AS a JOIN orders AS b ON a.id = b.user_id ORDER BY uid, amt",
+    // one variadic function at several arities
+    "SELECT id, concat(city, city) AS c2 FROM users ORDER BY id",
+    "SELECT id, concat(city, '/', city, '!') AS c4 FROM users WHERE id > 1 ORDER BY id",
+    "SELECT id, concat(city) AS c1, coalesce(score, 1) AS s FROM users ORDER BY id",
+    "SELECT status, concat(status, '-', status) AS ss, concat(status, status) AS s2 FROM orders",
     // column aliases declared on CTEs and derived tables (renaming)
     "WITH t (x, y) AS (SELECT id, age FROM users) SELECT x, y + 1 AS z FROM t ORDER BY x",
     "WITH a (k, n) AS (SELECT city, count(*) FROM users GROUP BY city), b (k, f) AS (SELECT city, factor FROM regions) SELECT a.k, a.n * b.f AS w FROM a JOIN b ON a.k = b.k",
